@@ -10,6 +10,11 @@ class Outcome:
         self.cov = dict(obligations=0, discharged=0, samples=[], functions_encoded=[], bounds={}, solver_time_s=0.0,
                         queries=0, witness_ok=None, trusted_base=[], checker_cmd='')
         self.assumptions = []
+        # replay files of earlier runs of this check are stale (named regression specs are kept)
+        rd = os.path.join(VERIF, 'replay')
+        if os.path.isdir(rd):
+            for f in os.listdir(rd):
+                if re.match(r'^%s-[0-9a-f]{10}\.' % pid, f): os.remove(os.path.join(rd, f))
     def add_violation(self, signature, what, replay, detail=None):
         self.violations.append(dict(signature=signature, what=what, replay=replay, detail=detail))
     def finish(self):
